@@ -625,6 +625,8 @@ def base_tree(lab, base):
         if base >= 3:
             l.create(r0 + "/b", io.BytesIO(b"base-b"))
             l.create(r0 + "/d/a", io.BytesIO(b"base-da"))
+        if base >= 4:
+            l.mkdir(r0 + "/m")
     lab.user(mk)
     return lab.drain()
 
